@@ -232,6 +232,13 @@ func deviceAccessToken(w http.ResponseWriter, r *http.Request, exchanger Exchang
 	if err != nil {
 		return err
 	}
+	if !clientAuthenticated && client.AuthMethod() != oidc.AuthMethodNone {
+		return oidc.ErrInvalidClient().WithParent(ErrNoClientCredentials).
+			WithDescription("confidential client requires authentication")
+	}
+	if clientAuthenticated && (r.Form.Get("client_assertion") != "") != (client.AuthMethod() == oidc.AuthMethodPrivateKeyJWT) {
+		return oidc.ErrInvalidClient().WithDescription("client authentication method not allowed for this client")
+	}
 	if clientAuthenticated != IsConfidentialType(client) {
 		return oidc.ErrInvalidClient().WithParent(ErrNoClientCredentials).
 			WithDescription("confidential client requires authentication")
